@@ -219,3 +219,66 @@ __CPROVER_ensures(config_p->freq == RF_Daily ==> (g_ret_s == (uint64_t)(DAILY_T(
              '64-bit division by 10^9 by its defining property (DIV_1E9)'],
     min_obligations=10)
 UNITS.append(initial_tp)
+
+# ------------------------------------------------------------------------------------------ the rename chain of _rotate_files (Index naming scheme)
+RC_PRELUDE = r'''
+typedef uint8_t NamingScheme; enum { NS_Index, NS_Date, NS_DateAndTime };
+typedef struct CfgN { NamingScheme g_scheme; } CfgN;
+/* one entry of _created_files: its index and its date suffix (content id, 0 = none); the base file name is the same for all */
+typedef struct FI { uint32_t index; size_t date_time; } FI;
+/* _created_files (newest first): one tracked entry at position g_p; every other entry is materialised from the representation invariant of
+   the Index scheme - the entry at position j (from the front) is file number j without a date suffix */
+typedef struct DQ { size_t n; size_t g_p; FI tracked; FI other; } DQ;
+typedef struct RSN { DQ _created_files; CfgN _config; } RSN;
+typedef struct Name { uint32_t index; size_t date_time; } Name;
+static inline size_t DQ_size(DQ* d) { return d->n; }
+static inline FI* DQ_rat(DQ* d, size_t ri) { __CPROVER_assert(ri < d->n, "reverse position within the list"); size_t pos = d->n - 1 - ri; if (pos == d->g_p) return &d->tracked; d->other.index = (uint32_t)pos; d->other.date_time = 0; return &d->other; }
+static inline Name NAME(uint32_t index, size_t date_time) { Name n; n.index = index; n.date_time = date_time; return n; }
+/* ghost file system, for ONE arbitrary name g_v of the sequence (file number g_v, no date): does a file of that name exist right now */
+uint32_t g_v; bool g_occ; size_t g_renames; uint32_t g_tracked_src, g_tracked_dst; size_t g_tracked_renames; uint32_t g_tracked_old;
+static inline void RENAME_FILE(Name src, Name dst)
+{
+  __CPROVER_assert(!(dst.index == g_v && dst.date_time == 0 && g_occ), "C14: a rename never lands on a file that still exists (no kept file is overwritten by the chain)");
+  __CPROVER_assert(!(src.index == g_v && src.date_time == 0) || g_occ, "C14: only existing files are renamed");
+  if (src.index == g_v && src.date_time == 0) g_occ = false;
+  if (dst.index == g_v && dst.date_time == 0) g_occ = true;
+  if (src.index == g_tracked_old && src.date_time == 0) { g_tracked_renames++; g_tracked_src = src.index; g_tracked_dst = dst.index; }
+  g_renames++;
+}
+#define C_(s) (&(s)->_created_files)
+'''
+rename_chain = dict(
+    name='RS.rename_chain', primary='C14', props={'C14'}, kind='S',
+    desc='the rename loop of RotatingSink::_rotate_files for the Index naming scheme: walking the list from the oldest file to the newest, file number k becomes k + 1; no rename lands on a name that still exists, every file is renamed exactly once, so the kept files keep their contents and their order (larger index = older)',
+    structs=[], prelude=RC_PRELUDE, enforce='RS_rename_chain', replace=[], loopcontracts=True,
+    funcs=[dict(src=dict(header=H, cls='RotatingSink', name='_rotate_files',
+                         stmt_re=r'for \(auto it = _created_files\.r?begin\(\); it != _created_files\.r?end\(\); \+\+it\)\s*\{.*?\}\s*(?=if \(_created_files\.size\(\) > _config\.max_backup_files\(\)\)\s*\{\s*fs::path const removed_file)'),
+                cfun='RS_rename_chain', sig='void RS_rename_chain(RSN* self, size_t datetime_suffix)', cls_c='RS', member_fields=['_created_files', '_config'],
+                pre_rules=[(r'for \(auto it = _created_files\.rbegin\(\); it != _created_files\.rend\(\); \+\+it\)\s*\{', 'for (size_t __ri = 0; __ri < DQ_size(&_created_files); ++__ri) { FI* it = DQ_rat(&_created_files, __ri);', '?'),
+                           (r'for \(auto it = _created_files\.begin\(\); it != _created_files\.end\(\); \+\+it\)\s*\{', 'for (size_t __ri = 0; __ri < DQ_size(&_created_files); ++__ri) { FI* it = DQ_rat(&_created_files, DQ_size(&_created_files) - 1 - __ri);', '?'),   # newest first: decided by the assertions, not an extraction break
+                           (r'fs::path\s+(existing_file|renamed_file)\s*;', r'Name \1;'),
+                           (r'_get_filename\(it->base_filename,\s*([^,()]+),\s*([^,()]+)\)', r'NAME(\1, \2)'),
+                           (r'_config\.rotation_naming_scheme\(\)\s*==\s*RotatingFileSinkConfig::RotationNamingScheme::(\w+)', r'(_config.g_scheme == NS_\1)'),
+                           (r'it->date_time\.empty\(\)', '(it->date_time == 0)'), (r'_rename_file\(existing_file,\s*renamed_file\)\s*;', 'RENAME_FILE(existing_file, renamed_file);')],
+                loops={0: r'''
+__CPROVER_assigns(__ri, self->_created_files.tracked, self->_created_files.other, g_occ, g_renames, g_tracked_src, g_tracked_dst, g_tracked_renames)
+__CPROVER_loop_invariant(__ri <= C_(self)->n && g_renames == __ri)
+__CPROVER_loop_invariant(C_(self)->tracked.date_time == 0 && C_(self)->tracked.index == (uint32_t)(C_(self)->g_p + ((C_(self)->g_p + __ri >= C_(self)->n) ? 1 : 0)))
+__CPROVER_loop_invariant((g_occ ? 1 : 0) == (((size_t)g_v + __ri < C_(self)->n || ((size_t)g_v + __ri > C_(self)->n && (size_t)g_v <= C_(self)->n)) ? 1 : 0))
+__CPROVER_loop_invariant(g_tracked_renames == ((C_(self)->g_p + __ri >= C_(self)->n) ? 1 : 0) && (g_tracked_renames == 1 ==> (g_tracked_src == g_tracked_old && g_tracked_dst == g_tracked_old + 1)))
+__CPROVER_decreases(C_(self)->n - __ri)
+'''},
+                contract=r'''
+__CPROVER_requires(__CPROVER_is_fresh(self, sizeof(*self)) && self->_config.g_scheme == NS_Index && datetime_suffix == 0 && C_(self)->n >= 1 && C_(self)->n <= (1u << 30) && C_(self)->g_p < C_(self)->n)
+__CPROVER_requires(C_(self)->tracked.index == (uint32_t)C_(self)->g_p && C_(self)->tracked.date_time == 0 && g_tracked_old == C_(self)->tracked.index)   /* representation invariant of the Index scheme, for the tracked entry */
+__CPROVER_requires((g_occ ==> (size_t)g_v < C_(self)->n) && ((size_t)g_v < C_(self)->n ==> g_occ) && g_renames == 0 && g_tracked_renames == 0)   /* the files r.log, r.1.log ... r.(n-1).log exist, no others of the sequence */
+__CPROVER_assigns(self->_created_files.tracked, self->_created_files.other, g_occ, g_renames, g_tracked_src, g_tracked_dst, g_tracked_renames)
+__CPROVER_ensures(g_renames == C_(self)->n && g_tracked_renames == 1 && g_tracked_src == g_tracked_old && g_tracked_dst == g_tracked_old + 1) /*@ C14 "every kept file is renamed exactly once, file number k to k + 1 (larger index = older)" */
+__CPROVER_ensures(C_(self)->tracked.index == (uint32_t)(C_(self)->g_p + 1) && C_(self)->tracked.date_time == 0) /*@ C14 "the list entry of each file follows its file: position j now names file number j + 1, so after the fresh file is put in front position j names file number j again" */
+__CPROVER_ensures((g_occ ? 1 : 0) == (((size_t)g_v >= 1 && (size_t)g_v <= C_(self)->n) ? 1 : 0)) /*@ C14 "afterwards exactly the names 1 .. n exist: the current name is free for the fresh file and nothing was overwritten on the way" */
+''')],
+    harness='  RSN* s; size_t d; RS_rename_chain(s, d);',
+    dropped=['file names as (file number, date suffix id); the file system as the existence of one arbitrary name of the sequence', 'the Date / DateAndTime branches are lowered but not exercised (precondition: Index scheme)'],
+    trusted=['std::filesystem::rename moves a file to a free name', 'list abstracted to {one tracked entry, the others materialised from the Index-scheme invariant: position j holds file number j}'],
+    assumes=['Index naming scheme only; the Date / DateAndTime chains are covered by the native stand-ins RS.size_files / RS.time_files / RS.restart_files'], min_obligations=20)
+UNITS.append(rename_chain)
